@@ -266,7 +266,17 @@ def gen_cases(rng, scale=1):
         cases.append({'name': name, 'prop': 'clean', 'obey': 'all', 'loop_exc': True, 'script': s, 'topo': 'both' if s.get('mq_raises') else 'none', 'sched': None})
     for c in cases:
         if c['script'].get('mq_raises') and c.get('topo') == 'none': c['topo'] = 'both'
-    return cases
+    # heartbeat facets installed during the run (telemetry bridge): metric names are user-chosen, some cannot become fields of the facet dataclass -
+    # a heartbeat built from them fails and is dropped (allowed: RUNNING*), the START and the terminal event must not depend on them
+    extra = []
+    for c in rng.sample(cases, min(len(cases), 120 * scale)):
+        if c['script'].get('ctor_raises') or not (c['script'].get('iters') or []): continue
+        keys = rng.sample(HB_KEYS, rng.randint(1, 3))
+        extra.append(dict(c, name=c['name'] + '+facets', hb_facets=keys))
+    return cases + extra
+
+
+HB_KEYS = ['frames_processed', 'frames.processed', 'x-y', '9lives', 'type', 'schemaURL', 'ok', 'Fps', 'a b', 'class', '_hidden', 'det_count_histogram']
 
 
 def run(ctx):
@@ -292,7 +302,7 @@ def run(ctx):
         if model is not None:
             m = model[i]
             if 'err' in m: mi = mm = None; ok = False
-            elif c.get('sched') is None:   # free-running thread: the number of heartbeats is not determined
+            elif c.get('sched') is None or c.get('hb_facets'):   # free-running thread / heartbeat facets that may not build: the number of heartbeats is not determined
                 strip = lambda l: [x for x in l if x != 'RUNNING']
                 mi, mm = {'events': strip(o['events']), 'ops': o['ops']}, {'events': strip(m['events']), 'ops': m['ops']}; ok = mi == mm
             else:
